@@ -24,6 +24,7 @@
 import DnsModel.Theorems.C09
 import DnsModel.Theorems.C06
 import DnsModel.Theorems.C11
+import DnsModel.Lemmas.EdnsOps
 namespace Dns.C08
 open Dns Res
 
@@ -31,7 +32,7 @@ open Dns Res
 def questionOf {pp : PP} (P : PlainObj pp) : Bytes × Nat × Nat := (encLabels P.qls ++ [0], get16 P.q4 0, get16 P.q4 2)
 
 /-- **the invariant** -/
-def Consistent (pp : PP) : Prop := ∃ P : PlainObj pp, pp.cached = none ∨ pp.cached = some (questionOf P)
+def Consistent (pp : PP) : Prop := ∃ P : PlainObj pp, (pp.cached = none ∨ pp.cached = some (questionOf P)) ∧ EdnsOK P
 
 theorem PlainObj.pointerFree {pp : PP} (P : PlainObj pp) : ∃ L : C03.Layout pp.packet, C06.PointerFree pp.packet L := by
   rw [P.bytes]
@@ -88,10 +89,12 @@ theorem question_read {pp : PP} (P : PlainObj pp) (hc : pp.cached = none) :
 theorem consistent_view {pp : PP} (h : Consistent pp) :
     (∃ v, parse pp.packet = .ok v ∧ v.offsetQuestion = pp.offsetQuestion ∧ v.offsetAnswers = pp.offsetAnswers ∧
       v.offsetNameservers = pp.offsetNameservers ∧ v.offsetAdditional = pp.offsetAdditional) ∧
+    (∀ v, parse pp.packet = .ok v → pp.offsetEdns = v.offsetEdns ∧ pp.ednsCount = v.ednsCount ∧ pp.extRcode = v.extRcode ∧
+      pp.ednsVersion = v.ednsVersion ∧ pp.extFlags = v.extFlags ∧ pp.maxPayload = v.maxPayload) ∧
     pp.maybeCompressed = false ∧ (∃ L : C03.Layout pp.packet, C06.PointerFree pp.packet L) ∧
     (∃ q pp1 pp2, questionRaw0 pp = .ok (some q, pp1) ∧ questionRaw0 { pp with cached := none } = .ok (some q, pp2)) := by
-  obtain ⟨P, hc⟩ := h
-  refine ⟨C11.still_accepted P, P.mc, PlainObj.pointerFree P, ?_⟩
+  obtain ⟨P, hc, he⟩ := h
+  refine ⟨C11.still_accepted P, fun v hv => he.matches_parse hv, P.mc, PlainObj.pointerFree P, ?_⟩
   let P0 : PlainObj { pp with cached := none } :=
     ⟨P.hdr, P.q4, P.qls, P.A, P.N, P.R, P.o2, P.o3, P.o4, P.hh, P.hqd, P.hgq, P.hq4, P.hcl, P.hA, P.hN, P.hR, P.hca, P.hcn, P.hcr,
       P.hqr, P.bytes, P.oq, P.oa, P.on, P.oR, P.mc⟩
@@ -107,76 +110,181 @@ theorem consistent_counts {pp : PP} (h : Consistent pp) :
       get16 (pp.packet.take 12) 10 = (P.lst .additional).length ∧
       (pp.offsetAnswers = none ↔ P.lst .answer = []) ∧ (pp.offsetNameservers = none ↔ P.lst .nameServers = []) ∧
       (pp.offsetAdditional = none ↔ P.lst .additional = []) := by
-  obtain ⟨P, _⟩ := h
+  obtain ⟨P, _, _⟩ := h
   exact ⟨P, C11.emptied_absent P⟩
 
+/-- the EDNS summary of the decompressed bytes is that of the input, up to the position -/
+theorem edns_fields_carried {pp : PP} {p : Bytes} {v v2 : View} (F : Fresh pp p v) (hmp : pp.maxPayload = v.maxPayload)
+    {L : C03.Layout p} (o : C05.Output p L) (h2 : parse o.bytes = .ok v2) :
+    pp.ednsCount = v2.ednsCount ∧ pp.extRcode = v2.extRcode ∧ pp.ednsVersion = v2.ednsVersion ∧ pp.extFlags = v2.extFlags ∧
+      pp.maxPayload = v2.maxPayload := by
+  have hcore := edns_preserved F.hp o h2
+  unfold EdnsInfo.core View.info at hcore
+  simp only [Prod.mk.injEq] at hcore
+  obtain ⟨c1, c2, c3, c4, c5⟩ := hcore
+  exact ⟨by rw [c1]; exact F.e1, by rw [c2]; exact F.e2, by rw [c3]; exact F.e3, by rw [c4]; exact F.e4, by rw [c5]; exact hmp⟩
+
 /-- what decompression / `recompute` leaves of any accepted packet is consistent -/
-theorem after_decompression {p : Bytes} {v : View} (h : parse p = .ok v) (pp0 : PP) :
+theorem after_decompression {pp0 : PP} {p : Bytes} {v : View} (F : Fresh pp0 p v) (hmp : pp0.maxPayload = v.maxPayload) :
     ∃ (L : C03.Layout p) (o : C05.Output p L) (v2 : View), uncompress p = .ok o.bytes ∧ parse o.bytes = .ok v2 ∧
       Consistent (pp0.rebased o.bytes v2) := by
-  obtain ⟨L, o, v2, hu, h2, P, _⟩ := C11.plain_of_accepted h pp0
-  exact ⟨L, o, v2, hu, h2, P, Or.inl rfl⟩
+  obtain ⟨L, o, v2, hu, h2, P, _⟩ := C11.plain_of_accepted F.hp pp0
+  obtain ⟨e1, e2, e3, e4, e5⟩ := edns_fields_carried F hmp o h2
+  exact ⟨L, o, v2, hu, h2, P, Or.inl rfl, ednsOK_rebased P h2 e1 e2 e3 e4 e5⟩
 
 /-- an operation that changes only the bytes and the section starts, and keeps the question, keeps the cache right -/
 theorem consistent_of_same_question {pp pp' : PP} (P : PlainObj pp) (P' : PlainObj pp') (hq : P'.qls = P.qls) (hq4 : P'.q4 = P.q4)
-    (hc : pp'.cached = pp.cached ∨ pp'.cached = none) (h : pp.cached = none ∨ pp.cached = some (questionOf P)) : Consistent pp' := by
-  refine ⟨P', ?_⟩
+    (hc : pp'.cached = pp.cached ∨ pp'.cached = none) (h : pp.cached = none ∨ pp.cached = some (questionOf P))
+    (he : EdnsOK P') : Consistent pp' := by
+  refine ⟨P', ?_, he⟩
   have e : questionOf P' = questionOf P := by unfold questionOf; rw [hq, hq4]
   rcases hc with hc | hc
   · rw [hc, e]; exact h
   · exact Or.inl hc
 
+/-- the position field after `resize_rr`-style bookkeeping, as a map over the old position -/
+theorem map_if_optLt (oe : Option Nat) (off : Nat) (g : Nat → Nat) :
+    (if optLt (some off) oe then oe.map g else oe) = oe.map (fun x => if off < x then g x else x) := by
+  cases oe with
+  | none => simp [optLt]
+  | some x =>
+    by_cases h : off < x
+    · simp [optLt, h]
+    · simp [optLt, h]
+
+/-- whether the record under the cursor is the OPT record, read off the packet -/
+theorem isOpt_iff_type {pp : PP} (P : PlainObj pp) (sec : Section) (hs : sec.isRec = true) {ps1 ps2 : List Bytes} {rc : Bytes}
+    (hsplit : P.lst sec = ps1 ++ rc :: ps2) {ne : Nat} {ob oa : Bool}
+    (hr : RRAtPos pp.packet sec ⟨P.start sec + ps1.flatten.length, ne, P.start sec + ps1.flatten.length + rc.length⟩ ob oa) :
+    (isOptPiece rc = true ↔ get16 pp.packet ne = 41) ∧ (get16 pp.packet ne = 41 → sec = .additional) := by
+  obtain ⟨owner, f8, rd, pre, post, ob', oa', hpk, hprel, hrc, hgo, hf8, hlt, hnon, hr', hty⟩ := P.shape_at sec hs hsplit
+  have hne' : ne = pre.length + labSum owner + 1 := by
+    rw [← hprel] at hr
+    exact nameEnds_functional hr.1 hr'.1
+  have hshape := isOptPiece_shape owner f8 (put16 rd.length ++ rd) hgo hf8
+  have e : (encLabels owner ++ [0]) ++ f8 ++ (put16 rd.length ++ rd) = rc := by rw [hrc]; simp
+  rw [e] at hshape
+  have hbody := hr.2.2.2.2
+  simp only at hbody
+  refine ⟨⟨fun h => by rw [hne', hty]; exact (hshape.1 h).2, fun h => ?_⟩, fun h => ?_⟩
+  · simp only [h, if_true] at hbody
+    have h1 : ne = P.start sec + ps1.flatten.length + 1 := hbody.2.1
+    rw [hne', ← hprel] at h1
+    have : labSum owner = 0 := by omega
+    have ho : owner = [] := by
+      cases owner with
+      | nil => rfl
+      | cons l ls => simp [labSum] at this
+    rw [hne', hty] at h
+    exact hshape.2 ⟨ho, h⟩
+  · simp only [h, if_true] at hbody
+    exact hbody.1
+
 /-- **insert** keeps the invariant -/
-theorem insert_answer_consistent {pp : PP} (P : PlainObj pp) (hc : pp.cached = none ∨ pp.cached = some (questionOf P)) (rr : Bytes)
-    (hpc : PieceOK .answer rr P.o2 P.o2) (hsize : pp.packet.length + rr.length ≤ 8192) (hcount : P.A.length < 65535)
+theorem insert_answer_consistent {pp : PP} (P : PlainObj pp) (hc : pp.cached = none ∨ pp.cached = some (questionOf P)) (he : EdnsOK P)
+    (rr : Bytes) (hpc : PieceOK .answer rr P.o2 P.o2) (hsize : pp.packet.length + rr.length ≤ 8192) (hcount : P.A.length < 65535)
     (hqr : get16 P.hdr 2 / 32768 % 2 = 1) :
     ∃ pp', insertRR pp .answer rr = .ok (pp', none) ∧ Consistent pp' := by
-  obtain ⟨pp', P', hrun, _, _, _, hq, hq4, _, hfr⟩ := insert_answer P rr hpc hsize hcount hqr
-  exact ⟨pp', hrun, consistent_of_same_question P P' hq hq4 (Or.inl (by rw [hfr])) hc⟩
+  obtain ⟨pp', P', hrun, hA, hN, hR, hq, hq4, _, hfr⟩ := insert_answer P rr hpc hsize hcount hqr
+  have hst : P'.start .additional = P.start .additional + rr.length := by
+    simp only [start_additional, hq, hA, hN]; simp; omega
+  exact ⟨pp', hrun, consistent_of_same_question P P' hq hq4 (Or.inl (by rw [hfr])) hc (ednsOK_insert_before P P' he rr.length hR hst hfr)⟩
 
-theorem insert_authority_consistent {pp : PP} (P : PlainObj pp) (hc : pp.cached = none ∨ pp.cached = some (questionOf P)) (rr : Bytes)
-    (hpc : PieceOK .nameServers rr P.o3 P.o3) (hsize : pp.packet.length + rr.length ≤ 8192) (hcount : P.N.length < 65535)
+theorem insert_authority_consistent {pp : PP} (P : PlainObj pp) (hc : pp.cached = none ∨ pp.cached = some (questionOf P)) (he : EdnsOK P)
+    (rr : Bytes) (hpc : PieceOK .nameServers rr P.o3 P.o3) (hsize : pp.packet.length + rr.length ≤ 8192) (hcount : P.N.length < 65535)
     (hqr : get16 P.hdr 2 / 32768 % 2 = 1) :
     ∃ pp', insertRR pp .nameServers rr = .ok (pp', none) ∧ Consistent pp' := by
-  obtain ⟨pp', P', hrun, _, _, _, hq, hq4, _, hfr⟩ := insert_authority P rr hpc hsize hcount hqr
-  exact ⟨pp', hrun, consistent_of_same_question P P' hq hq4 (Or.inl (by rw [hfr])) hc⟩
+  obtain ⟨pp', P', hrun, hA, hN, hR, hq, hq4, _, hfr⟩ := insert_authority P rr hpc hsize hcount hqr
+  have hst : P'.start .additional = P.start .additional + rr.length := by
+    simp only [start_additional, hq, hA, hN]; simp; omega
+  exact ⟨pp', hrun, consistent_of_same_question P P' hq hq4 (Or.inl (by rw [hfr])) hc (ednsOK_insert_before P P' he rr.length hR hst hfr)⟩
 
-theorem insert_additional_consistent {pp : PP} (P : PlainObj pp) (hc : pp.cached = none ∨ pp.cached = some (questionOf P)) (rr : Bytes)
-    (hpc : PieceOK .additional rr P.o4 P.o4) (hsize : pp.packet.length + rr.length ≤ 8192) (hcount : P.R.length < 65535) :
+theorem insert_additional_consistent {pp : PP} (P : PlainObj pp) (hc : pp.cached = none ∨ pp.cached = some (questionOf P)) (he : EdnsOK P)
+    (rr : Bytes) (hpc : PieceOK .additional rr P.o4 P.o4) (hsize : pp.packet.length + rr.length ≤ 8192) (hcount : P.R.length < 65535) :
     ∃ pp', insertRR pp .additional rr = .ok (pp', none) ∧ Consistent pp' := by
-  obtain ⟨pp', P', hrun, _, _, _, hq, hq4, _, hfr⟩ := insert_additional P rr hpc hsize hcount
-  exact ⟨pp', hrun, consistent_of_same_question P P' hq hq4 (Or.inl (by rw [hfr])) hc⟩
+  obtain ⟨pp', P', hrun, hA, hN, hR, hq, hq4, _, hfr⟩ := insert_additional P rr hpc hsize hcount
+  have hst : P'.start .additional = P.start .additional := by
+    simp only [start_additional, hq, hA, hN]
+  exact ⟨pp', hrun, consistent_of_same_question P P' hq hq4 (Or.inl (by rw [hfr])) hc
+    (ednsOK_insert_additional P P' he rr (noopt_of_pieceOK hpc) hR hst hfr)⟩
 
-/-- **delete** keeps the invariant (and empties the cache) -/
-theorem delete_consistent {pp : PP} (P : PlainObj pp) (sec : Section) (hs : sec.isRec = true) {ps1 ps2 : List Bytes} {rc : Bytes}
+/-- **delete** keeps the invariant (and empties the cache; deleting the OPT record clears the summary) -/
+theorem delete_consistent {pp : PP} (P : PlainObj pp) (he : EdnsOK P) (sec : Section) (hs : sec.isRec = true) {ps1 ps2 : List Bytes} {rc : Bytes}
     (hsplit : P.lst sec = ps1 ++ rc :: ps2) (c : Cursor) {ne : Nat} {ob oa : Bool}
     (hr : RRAtPos pp.packet sec ⟨P.start sec + ps1.flatten.length, ne, P.start sec + ps1.flatten.length + rc.length⟩ ob oa)
     (hoff : c.offset = some (P.start sec + ps1.flatten.length))
     (hnext : c.offsetNext = P.start sec + ps1.flatten.length + rc.length) (hne : c.nameEnd = ne) :
     ∃ st, deleteRR pp c = .ok st ∧ st.result = none ∧ Consistent st.pp := by
-  obtain ⟨pp', P', hdel, _, _, _, _, _, _, _, hcache⟩ := P.delete_at sec hs hsplit c hr hoff hnext hne
-  exact ⟨_, hdel, rfl, P', Or.inl hcache⟩
+  obtain ⟨pp', P', hdel, f1, f2, f3, _, _, g1, g2, hcache⟩ := P.delete_at sec hs hsplit c hr hoff hnext hne
+  obtain ⟨hiff, hsec⟩ := isOpt_iff_type P sec hs hsplit hr
+  refine ⟨_, hdel, rfl, P', Or.inl hcache, ?_⟩
+  by_cases h41 : get16 pp.packet ne = 41
+  · obtain ⟨k1, k2, k3, k4, k5, k6⟩ := g2 h41
+    have hadd := hsec h41
+    subst hadd
+    have f1' : P'.R = ps1 ++ ps2 := f1
+    refine ednsOK_remove_opt P P' hsplit (hiff.2 h41) f1' ?_
+    unfold PP.ednsInfo EdnsInfo.none
+    rw [k1, k2, k3, k4, k5, k6]
+  · obtain ⟨k1, k2, k3, k4, k5, k6⟩ := g1 h41
+    have hn : isOptPiece rc = false := by
+      cases h : isOptPiece rc with
+      | false => rfl
+      | true => exact absurd (hiff.1 h) h41
+    refine ednsOK_remove P P' he sec hs hsplit hn f1 f2 f3 ?_
+    apply ednsInfo_moved pp pp' _ _ k1 k2 k3 k4 k5
+    rw [k6, hoff, map_if_optLt]
+    congr 1
+    funext x
+    rw [shiftNat_neg']
 
 /-- **set_rr_ttl** keeps the invariant -/
-theorem set_ttl_consistent {pp : PP} (P : PlainObj pp) (hc : pp.cached = none ∨ pp.cached = some (questionOf P))
+theorem set_ttl_consistent {pp : PP} (P : PlainObj pp) (hc : pp.cached = none ∨ pp.cached = some (questionOf P)) (he : EdnsOK P)
     (sec : Section) (hs : sec.isRec = true) {ps1 ps2 : List Bytes} {rc : Bytes}
     (hsplit : P.lst sec = ps1 ++ rc :: ps2) (c : Cursor) {ne : Nat} {ob oa : Bool}
     (hr : RRAtPos pp.packet sec ⟨P.start sec + ps1.flatten.length, ne, P.start sec + ps1.flatten.length + rc.length⟩ ob oa)
     (hoff : c.offset = some (P.start sec + ps1.flatten.length)) (hne : c.nameEnd = ne) (h41 : get16 pp.packet ne ≠ 41) (ttl : Nat) :
     ∃ pp', setRrTtl pp c ttl = .ok pp' ∧ Consistent pp' := by
-  obtain ⟨_, _, _, pp', P', _, _, hrun, _, _, hq, hq4, _, hfr⟩ := P.set_ttl sec hs hsplit c hr hoff hne h41 ttl
-  exact ⟨pp', hrun, consistent_of_same_question P P' hq hq4 (Or.inl (by rw [hfr])) hc⟩
+  obtain ⟨owner, f8, rd, pp', P', hrc, hf8, hrun, f1, f2, hq, hq4, _, hfr, hgo, ht⟩ := P.set_ttl sec hs hsplit c hr hoff hne h41 ttl
+  refine ⟨pp', hrun, consistent_of_same_question P P' hq hq4 (Or.inl (by rw [hfr])) hc ?_⟩
+  have hn : isOptPiece rc = false := by
+    rw [hrc]
+    have := noopt_of_type owner f8 (put16 rd.length ++ rd) hgo hf8 ht
+    simpa using this
+  have hf8' : (f8.take 4 ++ put32 ttl).length = 8 := by simp [put32_length, hf8]
+  have hty' : get16 (f8.take 4 ++ put32 ttl) 0 = get16 f8 0 := by
+    rw [get16_append_left (by simp [hf8]), get16_take (by omega)]
+  have hn' : isOptPiece ((encLabels owner ++ [0]) ++ (f8.take 4 ++ put32 ttl) ++ put16 rd.length ++ rd) = false := by
+    have := noopt_of_type owner (f8.take 4 ++ put32 ttl) (put16 rd.length ++ rd) hgo hf8' (by rw [hty']; exact ht)
+    simpa using this
+  refine ednsOK_replace P P' he sec hs hsplit hn hn' f1 f2 hq ?_
+  have hlen : ((encLabels owner ++ [0]) ++ (f8.take 4 ++ put32 ttl) ++ put16 rd.length ++ rd).length = rc.length := by
+    rw [hrc]; simp [put32_length, hf8]; omega
+  rw [hlen, moved_id (by intro x _; split <;> omega), hfr]
+  rfl
 
 /-- **set_rr_ip** keeps the invariant -/
-theorem set_ip_consistent {pp : PP} (P : PlainObj pp) (hc : pp.cached = none ∨ pp.cached = some (questionOf P))
+theorem set_ip_consistent {pp : PP} (P : PlainObj pp) (hc : pp.cached = none ∨ pp.cached = some (questionOf P)) (he : EdnsOK P)
     (sec : Section) (hs : sec.isRec = true) {ps1 ps2 : List Bytes} {rc : Bytes}
     (hsplit : P.lst sec = ps1 ++ rc :: ps2) (c : Cursor) {ne : Nat} {ob oa : Bool}
     (hr : RRAtPos pp.packet sec ⟨P.start sec + ps1.flatten.length, ne, P.start sec + ps1.flatten.length + rc.length⟩ ob oa)
     (hoff : c.offset = some (P.start sec + ps1.flatten.length)) (hne : c.nameEnd = ne) (ip : Bytes)
     (hfam : (get16 pp.packet ne = 1 ∧ ip.length = 4) ∨ (get16 pp.packet ne = 28 ∧ ip.length = 16)) :
     ∃ pp', setRrIp pp c ip = .ok (pp', none) ∧ Consistent pp' := by
-  obtain ⟨_, _, _, pp', P', _, _, _, hrun, _, _, hq, hq4, _, hfr⟩ := P.set_ip sec hs hsplit c hr hoff hne ip hfam
-  exact ⟨pp', hrun, consistent_of_same_question P P' hq hq4 (Or.inl (by rw [hfr])) hc⟩
+  obtain ⟨owner, f8, rd, pp', P', hrc, hf8, hrdl, hrun, f1, f2, hq, hq4, _, hfr, hgo, ht⟩ := P.set_ip sec hs hsplit c hr hoff hne ip hfam
+  refine ⟨pp', hrun, consistent_of_same_question P P' hq hq4 (Or.inl (by rw [hfr])) hc ?_⟩
+  have hn : isOptPiece rc = false := by
+    rw [hrc]
+    have := noopt_of_type owner f8 (put16 rd.length ++ rd) hgo hf8 ht
+    simpa using this
+  have hn' : isOptPiece ((encLabels owner ++ [0]) ++ f8 ++ put16 rd.length ++ ip) = false := by
+    have := noopt_of_type owner f8 (put16 rd.length ++ ip) hgo hf8 ht
+    simpa using this
+  refine ednsOK_replace P P' he sec hs hsplit hn hn' f1 f2 hq ?_
+  have hlen : ((encLabels owner ++ [0]) ++ f8 ++ put16 rd.length ++ ip).length = rc.length := by
+    rw [hrc]; simp [hrdl]
+  rw [hlen, moved_id (by intro x _; split <;> omega), hfr]
+  rfl
 
 theorem take_mid {α} (xs : List α) (y : α) (zs : List α) : (xs ++ y :: zs).take (xs.length + 1) = xs ++ [y] := by
   induction xs with
